@@ -510,8 +510,6 @@ var c05HostSeq int
 
 func c05NextHost() string { c05HostSeq++; return fmt.Sprintf("c%d.example.com", c05HostSeq) }
 
-func c05SniffEligible(port uint16) bool { return !tcpSniffingExcludedPorts[port] }
-
 // c05ProbeReader feeds a fixed prefix to the REAL stream sniffer and notes whether it asked for more.
 type c05ProbeReader struct {
 	data []byte
@@ -763,7 +761,9 @@ func c05RunBatch(t *testing.T, cp *ControlPlane, ud *c05Dialer, scns []*c05Scn) 
 			detect = l.left.rlog
 		}
 		unpack, likely, needMore, offers := c05Oracles(s, detect)
-		sniff := c05SniffEligible(s.port) && !s.negSkip
+		// the real eligibility predicate (port map, dial mode, sniffing timeout, outbound), not a re-implementation
+		dstAP := l.left.local.(*net.TCPAddr).AddrPort()
+		sniff := cp.shouldTryTcpSniff(dstAP, &bpfRoutingResult{Outbound: uint8(consts.OutboundControlPlaneRouting)}) && !s.negSkip
 		res[i].op = fmt.Sprintf("conn t0=%d p53=%s sniff=%s w=%d unpack=%s ctl=0 likely=%s nm=%s or=%s rcw=%s lcw=1 c=%s u=%s",
 			c05LookupDelay, c05B(s.port == 53), c05B(sniff), scns[0].window, c05B(unpack), c05B(likely), c05Ints(needMore), offers,
 			c05B(s.rcw), s.client.tok(), s.up.tok())
